@@ -68,13 +68,14 @@ def r1(ctx):
 def r2(ctx):
     g = ctx.repo.func("client.HttpBeaconClient.get_handlers")
     cfg = ctx.cfg(g)
+    HV = next((dotted(r.value) for r in statements(g.node) if isinstance(r, ast.Return) and isinstance(r.value, ast.Name)), "handlers")
     # the catch-all lookup (key -1) is dominated by `not handlers`
     fall = [c for c in fn_calls(g.node) if isinstance(c.func, ast.Attribute) and c.func.attr in ("get", "__getitem__") and dotted(c.func.value) == "self.task_map" and c.args and _c(c.args[0]) == -1]
     fall += [n for n in body_walk(g.node) if isinstance(n, ast.Subscript) and dotted(n.value) == "self.task_map" and _c(n.slice) == -1]
-    ok = bool(fall) and all(guarded_by(ctx, g, c, lambda t: False if dotted(t) == "handlers" else None) for c in fall)
+    ok = bool(fall) and all(guarded_by(ctx, g, c, lambda t: False if dotted(t) == HV else None) for c in fall)
     ctx.ob("R2", "DOM", g, "catch-all fallback", ok, "catch-all handlers are consulted only when no handler was found" if ok else "catch-all lookup is not dominated by `not handlers`")
     oc = [n for n in body_walk(g.node) if isinstance(n, ast.Call) and dotted(n.func) == "getattr" and len(n.args) >= 2 and _c(n.args[1]) == "on_catch_all"]
-    ok = bool(oc) and all(guarded_by(ctx, g, c, lambda t: False if dotted(t) == "handlers" else None) for c in oc)
+    ok = bool(oc) and all(guarded_by(ctx, g, c, lambda t: False if dotted(t) == HV else None) for c in oc)
     ctx.ob("R2", "DOM", g, "on_catch_all fallback", ok, "on_catch_all is consulted only when no handler was found" if ok else "on_catch_all lookup is not dominated by `not handlers`")
     first = [c for c in fn_calls(g.node) if isinstance(c.func, ast.Attribute) and c.func.attr == "get" and dotted(c.func.value) == "self.task_map" and c.args and dotted(c.args[0]) == params(g.node)[1]]
     ctx.ob("R2", "AGREE", g, "self.task_map.get(command_id, [])", len(first) == 1, "handlers are looked up under the task's command id")
@@ -88,16 +89,23 @@ def r2(ctx):
     if ok:
         hv = dotted(fors[0].target)
         calls = [c for c in ast.walk(fors[0]) if isinstance(c, ast.Call) and dotted(c.func) == hv]
-        ok = len(calls) == 1 and len(calls[0].args) == 1 and dotted(calls[0].args[0]) == "task"
+        TASK = next((dotted(s2.targets[0]) for s2 in statements(lp.node) if isinstance(s2, ast.Assign) and isinstance(s2.value, ast.Call) and dotted(s2.value.func) == "self.get_task"), "task")
+        ok = len(calls) == 1 and len(calls[0].args) == 1 and dotted(calls[0].args[0]) == TASK
         nested = [s for s in ast.walk(fors[0]) if isinstance(s, (ast.For, ast.While)) and s is not fors[0]]
         ok = ok and not nested
     ctx.ob("R2", "DOM", lp, "single dispatch site", ok, "each handler of the list returned by get_handlers(command_id) is called exactly once with the task" if ok else
            f"dispatch is not one `for handler in get_handlers(..)` with one handler(task) call (get_handlers calls={len(gh)}, loops={len(fors)}, call sites={len(calls)})")
     sc = [c for c in fn_calls(lp.node) if dotted(c.func) == "self.send_callback"]
-    ok = len(sc) == 1 and guarded_by(ctx, lp, sc[0], lambda t: True if dotted(t) == "response" else None)
+    RESP = None
+    if calls:
+        cst = fv.stmt_of(calls[0])
+        RESP = dotted(cst.targets[0]) if isinstance(cst, ast.Assign) else None
+    ok = len(sc) == 1 and RESP is not None and guarded_by(ctx, lp, sc[0], lambda t: True if dotted(t) == RESP else None) and any(isinstance(a, ast.Starred) and dotted(a.value) == RESP for a in sc[0].args)
     ctx.ob("R2", "DOM", lp, "send_callback on truthy response", bool(ok), "a callback is sent only for a truthy handler response" if ok else "send_callback not guarded by the handler's response")
-    cid = [v for st, v in assignments_to(lp.node, "command_id")]
-    ok = len(cid) == 1 and "task.command.value" in src(cid[0])
+    CID = dotted(gh[0].args[0]) if gh and gh[0].args else "command_id"
+    TASK = next((dotted(s2.targets[0]) for s2 in statements(lp.node) if isinstance(s2, ast.Assign) and isinstance(s2.value, ast.Call) and dotted(s2.value.func) == "self.get_task"), "task")
+    cid = [v for st, v in assignments_to(lp.node, CID)]
+    ok = len(cid) == 1 and f"{TASK}.command.value" in src(cid[0])
     ctx.ob("R2", "AGREE", lp, "command_id = task.command.value", ok, f"command id derived from the task: {[src(c) for c in cid]}")
 
 
